@@ -1035,6 +1035,15 @@ fn gen_c11_parent_rows(r: &mut Rng, n: usize) -> Vec<V> {
         .collect()
 }
 
+/// the same value with the members of every object in reverse order: equal by `=`, another text
+fn perm_twin(v: &V) -> V {
+    match v {
+        V::Obj(kvs) => V::Obj(kvs.iter().rev().map(|(k, x)| (k.clone(), perm_twin(x))).collect()),
+        V::Arr(xs) => V::Arr(xs.iter().map(perm_twin).collect()),
+        x => x.clone(),
+    }
+}
+
 pub fn gen_c11(r: &mut Rng, id: usize) -> Group {
     let u = key_universe_small();
     let special = r.chance(25);
@@ -1077,7 +1086,41 @@ pub fn gen_c11(r: &mut Rng, id: usize) -> Group {
         ])).collect()
     };
     let (a, b) = if ctxdep { let na = r.range(1, 5); let nb = r.range(1, 5); (ctx_rows(r, na), ctx_rows(r, nb)) } else { (a, b) };
-    let spec = if bigrows {
+    // runs of records that are EQUAL to their predecessor (`=`, and the equality of the implementation, ignore member order) without
+    // being the same text: whatever a stage remembers about the previous record, the rows of this one are made from this one
+    let twins = !special && !long && !bigrows && !ctxdep && r.chance(10);
+    let twin_rows = |r: &mut Rng, n: usize| -> Vec<V> {
+        let ab = V::Obj(vec![("a".into(), V::Int(1)), ("b".into(), V::Int(2))]);
+        let base = [ab.clone(), V::Arr(vec![ab.clone()]), V::Arr(vec![ab.clone(), V::Int(3), ab.clone()]),
+                    V::Obj(vec![("a".into(), V::Obj(vec![("x".into(), V::Int(1)), ("y".into(), V::Arr(vec![V::Int(1), ab.clone()]))])), ("b".into(), V::Str("s".into()))]),
+                    V::Obj(vec![("k".into(), V::Str("é".into())), ("id".into(), V::Int(7)), ("l".into(), V::Arr(vec![]))])];
+        let mut out = vec![];
+        for _ in 0..n {
+            let v = r.pick(&base).clone();
+            out.push(v.clone());
+            if r.chance(75) {
+                out.push(perm_twin(&v));
+            }
+            if r.chance(30) {
+                out.push(v);
+            }
+        }
+        out
+    };
+    let (a, b) = if twins { let na = r.range(1, 4); let nb = r.range(1, 4); (twin_rows(r, na), twin_rows(r, nb)) } else { (a, b) };
+    let spec = if twins {
+        let mut s = Spec::default();
+        match r.below(7) {
+            0 => {}
+            1 => { s.split = Some("(keys .)".into()); s.style = Some("text".into()); }
+            2 => s.split = Some(".".into()),
+            3 => { s.selects.push("(stringify .)=s".into()); s.selects.push("(keys .)=k".into()); }
+            4 => { s.selects.push("(values .)=v".into()); s.selects.push(".=w".into()); }
+            5 => { s.filter = Some("(= (get (keys .) 0) \"a\")".into()); }
+            _ => { s.split = Some("(entries .)".into()); s.selects.push(".=e".into()); }
+        }
+        s
+    } else if bigrows {
         let mut s = Spec::default();
         s.selects.push(".id=id".into());
         s.selects.push(".k=k".into());
@@ -1160,7 +1203,12 @@ pub fn gen_c11(r: &mut Rng, id: usize) -> Group {
     rev.reverse();
     let mut dup = a.clone();
     dup.extend(a.iter().cloned());
-    let cases = vec![mk("A", &a, r), mk("B", &b, r), mk("AB", &ab, r), mk("revA", &rev, r), mk("AA", &dup, r)];
+    let mut cases = vec![mk("A", &a, r), mk("B", &b, r), mk("AB", &ab, r), mk("revA", &rev, r), mk("AA", &dup, r)];
+    if twins || (!long && !bigrows && a.len() <= 6 && r.chance(15)) {
+        for (i, rec) in a.iter().enumerate() {
+            cases.push(mk(&format!("rec{i}"), std::slice::from_ref(rec), r));
+        }
+    }
     let mut g = Group::new(cases);
     g.nontrivial = !a.is_empty() && !b.is_empty();
     g.labels.push(format!("style:{}", spec.style.clone().unwrap_or("json".into())));
@@ -1172,6 +1220,9 @@ pub fn gen_c11(r: &mut Rng, id: usize) -> Group {
     }
     if bigrows {
         g.labels.push("kind:big-rows".into());
+    }
+    if twins {
+        g.labels.push("kind:equal-neighbours".into());
     }
     g
 }
@@ -1902,6 +1953,12 @@ pub fn gen_c17(r: &mut Rng, id: usize) -> Group {
     let mut cuts: Vec<usize> = vec![];
     let mut spans: Vec<(usize, usize)> = vec![];
     let mut noisy = false;
+    if r.chance(12) {
+        // bytes at the very start of the input that are not data: a UTF-8 byte order mark, a shebang-like word — they are
+        // garbage like any other, whichever way the input is delivered
+        text.push_str(r.ps(&["\u{feff}", "\u{feff} ", "\u{feff}\n", "\u{fffe}", "# ", "\u{feff}\u{feff}"]));
+        noisy = true;
+    }
     for v in &vals {
         // jawk accepts raw control characters inside strings: a raw line feed there still is a line break
         let mut t = value::render(v);
@@ -2200,6 +2257,37 @@ pub fn gen_c19(r: &mut Rng, id: usize) -> Group {
         g.tag = format!("nas-sort\u{1}{}", items.join("\u{2}"));
         g.nontrivial = true;
         g.labels.push("kind:nas-sort".into());
+        return g;
+    }
+    if r.chance(8) {
+        // neighbouring integers that one double cannot tell apart, with repeats, through --unique / grouping / the unique functions:
+        // an integer is a duplicate of the SAME integer only
+        let p53: i128 = 1 << 53;
+        let p63: i128 = 1 << 63;
+        let p64: i128 = 1 << 64;
+        let pool = [p53, p53 + 1, p53 + 2, p53 - 1, p64 - 1, p64 - 2, p64 - 3, p63, p63 + 1, p63 - 1, -p63, -p63 + 1, -p63 + 2, -p53, -p53 - 1, 0, 7];
+        let n = r.range(2, 12);
+        let ints: Vec<i128> = (0..n).map(|_| *r.pick(&pool)).collect();
+        let wrap = r.below(3);
+        let rows: Vec<V> = ints.iter().map(|i| match wrap {
+            0 => V::Int(*i),
+            1 => V::Obj(vec![("k".into(), V::Int(*i))]),
+            _ => V::Arr(vec![V::Int(*i), V::Str("x".into())]),
+        }).collect();
+        let (bytes, _) = stream_of(r, &rows, false);
+        let mut c = case(format!("C19-{id}-ints-unique"));
+        c.spec.unique = true;
+        match (wrap, r.below(3)) {
+            (1, 0) => c.spec.selects.push(".k=k".into()),
+            (1, 1) => { c.spec.selects.push(".k=k".into()); c.spec.selects.push(".zz=absent".into()); }
+            (2, 0) => c.spec.selects.push("(get . 0)=k".into()),
+            _ => {}
+        }
+        c.sources.push(stdin_src(bytes));
+        let mut g = Group::new(vec![c]);
+        g.tag = format!("ints-unique\u{1}{}", ints.iter().map(|i| i.to_string()).collect::<Vec<_>>().join(","));
+        g.nontrivial = true;
+        g.labels.push("kind:ints-unique".into());
         return g;
     }
     if r.chance(50) {
@@ -2689,6 +2777,16 @@ pub fn oracle(prop: &str, g: &Group, obs: &[Obs]) -> Option<String> {
             want2.extend_from_slice(&a.out[header.min(a.out.len())..]);
             if aa.out != want2 {
                 return Some("out(A.A) != out(A).out(A)".into());
+            }
+            // the records of A one by one (when the group carries those runs): out(A) is their outputs one after the other
+            if obs.len() > 5 && obs[5..].iter().all(|o| o.res == "ok") {
+                let mut want3 = a.out[..header.min(a.out.len())].to_vec();
+                for o in &obs[5..] {
+                    want3.extend_from_slice(&o.out[header.min(o.out.len())..]);
+                }
+                if a.out != want3 {
+                    return Some("out(A) is not the outputs of its records, each run on its own, one after the other".into());
+                }
             }
             None
         }
@@ -3185,6 +3283,29 @@ pub fn oracle(prop: &str, g: &Group, obs: &[Obs]) -> Option<String> {
             };
             if got_t != want {
                 return Some(format!("{}: sorting objects by their number-as-string member gives {got_t:?}, expected {want:?}", c.id));
+            }
+            None
+        }
+        "C19" if g.tag.starts_with("ints-unique\u{1}") => {
+            let (c, o) = (&g.cases[0], &obs[0]);
+            if o.res != "ok" {
+                return Some(format!("{}: run gave {} {}", c.id, o.res, o.panic_msg));
+            }
+            let ints: Vec<&str> = g.tag.split('\u{1}').nth(1).unwrap_or("").split(',').collect();
+            let mut want: Vec<&str> = vec![];
+            for i in &ints {
+                if !want.contains(i) {
+                    want.push(i);
+                }
+            }
+            // the integer of a row is its only run of digits (with its sign)
+            let text = String::from_utf8_lossy(&o.out).into_owned();
+            let got: Vec<String> = text.split('\n').filter(|l| !l.is_empty()).map(|l| {
+                let start = l.find(|ch: char| ch == '-' || ch.is_ascii_digit()).unwrap_or(0);
+                l[start..].chars().take_while(|ch| *ch == '-' || ch.is_ascii_digit()).collect()
+            }).collect();
+            if got.iter().map(|x| x.as_str()).collect::<Vec<_>>() != want {
+                return Some(format!("{}: --unique over the integers {:?} kept {:?}, the distinct integers in order of first occurrence are {:?}", c.id, ints, got, want));
             }
             None
         }
